@@ -4,7 +4,7 @@ from ..fdai import EnumV, AggV, K, SymV, RefV, Cell, Loc, TOP, load
 from . import dispatch as D
 
 LEVEL = "other"
-TECHNIQUE = 'FDAI path enumeration of Node::run, run_tokens, exec and ResponseUnit::{header,data,finish}: error-hook exactly-once table, abort-after-first-error, no-dropped-error discipline over every fallible call, response-unit error latch, who-may-call census for Device::handle_error, forward-only token stream; write discipline of Formatter::response_unit (both formatters) and of every ResponseData writer of the workspace: the result of each fallible write is branched on (its Err returned) or is the return value; leaf exec with unread parameters left in the unit; Parameters never consumes a lexical error it reports; whole-message tables (sa/rules/msgtable.py): Node::run folded end to end on concrete messages against a concrete tree with the real tokenizer, dispatcher, Parameters, ResponseUnit and formatter impl analysed in place and scripted handlers, compared with a reference execution written from SCPI-99 6.2.4 / IEEE 488.2 7-8 - messages of one to four units in which one unit fails for each kind of reason in each position: units before it ran once in order, nothing after it ran, that error returned and handed to the hook exactly once'
+TECHNIQUE = 'FDAI path enumeration of Node::run, run_tokens, exec and ResponseUnit::{header,data,finish}: error-hook exactly-once table, abort-after-first-error, no-dropped-error discipline over every fallible call, response-unit error latch, who-may-call census for Device::handle_error, forward-only token stream; write discipline of Formatter::response_unit (both formatters) and of every ResponseData writer of the workspace: the result of each fallible write is branched on (its Err returned) or is the return value; leaf exec with unread parameters left in the unit; Parameters never consumes a lexical error it reports; whole-message tables (sa/rules/msgtable.py): Node::run folded end to end on concrete messages against a concrete tree with the real tokenizer, dispatcher, Parameters, ResponseUnit and formatter impl analysed in place and scripted handlers, compared with a reference execution written from SCPI-99 6.2.4 / IEEE 488.2 7-8 - messages of one to four units in which one unit fails for each kind of reason in each position: units before it ran once in order, nothing after it ran, that error returned and handed to the hook exactly once; empty units (`A;;B`) after every kind of unit'
 LEVEL_TEXT = "Structural decision over all paths of the four dispatcher functions: every abstract path that returns Err was checked to hand exactly that error to Device::handle_error exactly once (and Ok paths never), no path continues with another unit or handler after a failed call, every call that can fail is propagated, and the response unit latches its first error. The paths are enumerated by abstract interpretation over token classes, not by running messages."
 LEVEL_NOTE = "Not decided: conduct of user handlers; user Formatter/Device impls. Trusted: rustc MIR, FDAI models of Try/FromResidual/Option/Result combinators and of Peekable."
 
